@@ -9,29 +9,32 @@ import Model.Conv128
   64 as its precision and then rounds `x` to that precision (`math/big/float.go`, `SetInt`). -/
 namespace Conv
 
-/-- `UnmarshalYAML`: `cb = none` — the callback returned an error; `some s` — it stored the string `s` -/
-def U128.unmarshalYAML (recv : U128) (cb : Option (List Char)) : U128 × Bool :=
+/-- `UnmarshalYAML`: `cb = none` — the callback returned an error (returned before anything else happens);
+    `some s` — it stored the string `s`, which is then loaded (`order`: see `LoadOrder`; the code is `checkThenStore`) -/
+def U128.unmarshalYAMLGen (order : LoadOrder) (recv : U128) (cb : Option (List Char)) : U128 × Bool :=
   match cb with
   | none => (recv, false)
-  | some s => U128.unmarshal recv s
-def I128.unmarshalYAML (recv : I128) (cb : Option (List Char)) : I128 × Bool :=
+  | some s => U128.loadGen order recv s
+def I128.unmarshalYAMLGen (order : LoadOrder) (recv : I128) (cb : Option (List Char)) : I128 × Bool :=
   match cb with
   | none => (recv, false)
-  | some s => I128.unmarshal recv s
+  | some s => I128.loadGen order recv s
+def U128.unmarshalYAML (recv : U128) (cb : Option (List Char)) : U128 × Bool := U128.unmarshalYAMLGen .checkThenStore recv cb
+def I128.unmarshalYAML (recv : I128) (cb : Option (List Char)) : I128 × Bool := I128.unmarshalYAMLGen .checkThenStore recv cb
 
-/-- `Scan` as a method on a receiver: `tok = none` — `Token` returned an error -/
+/-- `Scan` as a method on a receiver: `tok = none` — `Token` returned an error; otherwise `scanText token verb` is loaded -/
+def U128.scanIntoGen (order : LoadOrder) (recv : U128) (tok : Option (List Char)) (verb : Char) : U128 × Bool :=
+  match tok with
+  | none => (recv, false)
+  | some t => U128.loadGen order recv (scanText t verb)
+def I128.scanIntoGen (order : LoadOrder) (recv : I128) (tok : Option (List Char)) (verb : Char) : I128 × Bool :=
+  match tok with
+  | none => (recv, false)
+  | some t => I128.loadGen order recv (scanText t verb)
 def U128.scanInto (recv : U128) (tok : Option (List Char)) (verb : Char) : U128 × Bool :=
-  match tok with
-  | none => (recv, false)
-  | some t => match U128.scan t verb with
-    | some v => (v, true)
-    | none => (recv, false)
+  U128.scanIntoGen .checkThenStore recv tok verb
 def I128.scanInto (recv : I128) (tok : Option (List Char)) (verb : Char) : I128 × Bool :=
-  match tok with
-  | none => (recv, false)
-  | some t => match I128.scan t verb with
-    | some v => (v, true)
-    | none => (recv, false)
+  I128.scanIntoGen .checkThenStore recv tok verb
 
 /-- `Float64()`: `none` = `errNoFloat64`, for every value -/
 def U128.float64Method (_ : U128) : Option GoSem.F64 := none
@@ -52,10 +55,19 @@ def roundToPrec (prec : Nat) (z : Int) : Int :=
     let q' := if r > half ∨ (r = half ∧ q % 2 = 1) then q + 1 else q
     if z < 0 then -((q' * 2^sh : Nat) : Int) else ((q' * 2^sh : Nat) : Int)
 
-/-- `new(big.Float).SetInt(x)`: (precision, value) -/
-def bigFloatSetInt (x : Int) : Nat × Int :=
-  let prec := max (bitLen x.natAbs) 64
+/-- `SetInt(x)` on a `big.Float` whose precision was determined by `precOf` from the bit length of `x`:
+    (precision, value after rounding to it) -/
+def bigFloatSetIntGen (precOf : Nat → Nat) (x : Int) : Nat × Int :=
+  let prec := precOf (bitLen x.natAbs)
   (prec, roundToPrec prec x)
+
+/-- the code, `new(big.Float).SetInt(x)`: a fresh `big.Float` has precision 0, so `SetInt` chooses the larger of the bit
+    length and 64 — THE mechanism that makes `AsBigFloat` exact -/
+def bigFloatSetInt (x : Int) : Nat × Int := bigFloatSetIntGen (fun bits => max bits 64) x
+
+/-- the variant with the precision fixed beforehand, `new(big.Float).SetPrec(64).SetInt(x)` (driver line `bigfloat64`,
+    compared with math/big: it exercises the rounding branch of `roundToPrec`) -/
+def bigFloatSetInt64 (x : Int) : Nat × Int := bigFloatSetIntGen (fun _ => 64) x
 
 def U128.asBigFloat (u : U128) : Nat × Int := bigFloatSetInt u.asBigInt
 def I128.asBigFloat (i : I128) : Nat × Int := bigFloatSetInt i.asBigInt
